@@ -378,6 +378,110 @@ Proof.
     eapply lz_compose; [exact R0 | exact S1 | exact R1 | lia].
 Qed.
 
+(* ---------- LZ4_memcpy_using_offset: the pattern stores for offsets 1, 2, 4 ---------- *)
+Lemma get_store_rep : forall k m d v x,
+  length v = 8%nat ->
+  get (store_rep k m d v) x =
+  if (d <=? x) && (x <? d + 8 * Z.of_nat k) then nth (Z.to_nat ((x - d) mod 8)) v 0 else get m x.
+Proof.
+  induction k as [|k IH]; intros m d v x Hv.
+  - cbn [store_rep]. destruct ((d <=? x) && (x <? d + 8 * Z.of_nat 0)) eqn:E; [lia | reflexivity].
+  - cbn [store_rep]. rewrite IH by exact Hv. rewrite get_store_list, Hv.
+    destruct ((d + 8 <=? x) && (x <? d + 8 + 8 * Z.of_nat k)) eqn:E1.
+    + assert (E2 : (d <=? x) && (x <? d + 8 * Z.of_nat (S k)) = true) by lia. rewrite E2.
+      f_equal. f_equal. Z.div_mod_to_equations. lia.
+    + destruct ((d <=? x) && (x <? d + Z.of_nat 8)) eqn:E3.
+      * assert (E2 : (d <=? x) && (x <? d + 8 * Z.of_nat (S k)) = true) by lia. rewrite E2.
+        f_equal. f_equal. Z.div_mod_to_equations. lia.
+      * assert (E2 : (d <=? x) && (x <? d + 8 * Z.of_nat (S k)) = false) by lia. rewrite E2. reflexivity.
+Qed.
+
+(* an 8-byte pattern that repeats with period [off] (off divides 8), taken from the bytes before d *)
+Lemma store_rep_lz k m d off v :
+  length v = 8%nat -> (off = 1 \/ off = 2 \/ off = 4) ->
+  (forall j, 0 <= j < 8 -> nth (Z.to_nat j) v 0 = get m (d - off + j mod off)) ->
+  let m' := store_rep k m d v in
+  same_below m m' d /\ lzrec m' off d (d + 8 * Z.of_nat k).
+Proof.
+  intros Hv Hoff Hpat. cbv zeta. split.
+  - intros a Ha. rewrite get_store_rep by exact Hv.
+    destruct ((d <=? a) && (a <? d + 8 * Z.of_nat k)) eqn:E; [lia | reflexivity].
+  - intros x Hx. rewrite !get_store_rep by exact Hv.
+    assert (E1 : (d <=? x) && (x <? d + 8 * Z.of_nat k) = true) by lia. rewrite E1.
+    pose proof (Z.mod_pos_bound (x - d) 8 ltac:(lia)) as Hr.
+    rewrite (Hpat ((x - d) mod 8)) by lia.
+    destruct ((d <=? x - off) && (x - off <? d + 8 * Z.of_nat k)) eqn:E2.
+    + pose proof (Z.mod_pos_bound (x - off - d) 8 ltac:(lia)) as Hr2.
+      rewrite (Hpat ((x - off - d) mod 8)) by lia.
+      f_equal. f_equal.
+      destruct Hoff as [->|[->| ->]]; Z.div_mod_to_equations; lia.
+    + f_equal.
+      assert (Hsmall : x - d < off) by lia.
+      destruct Hoff as [->|[->| ->]]; Z.div_mod_to_equations; lia.
+Qed.
+
+Lemma using_offset_base_lz m d off e :
+  1 <= off ->
+  let m' := using_offset_base m d (d - off) e off in
+  same_below m m' d /\ lzrec m' off d (Z.max e (d + 8)).
+Proof.
+  intros Ho. cbv zeta. unfold using_offset_base.
+  pose proof (first8_lz m d off Ho) as F.
+  destruct (first8 m d (d - off) off) as [m1 mat2].
+  destruct F as (S1 & R1 & k & Hk & HD & HDr).
+  set (D := d + 8 - mat2) in *.
+  destruct (wild8_lz m1 (d + 8) D e) as [S2 R2]; [lia|].
+  replace (d + 8 - D) with mat2 in S2, R2 by (unfold D; lia).
+  split.
+  - eapply same_below_trans; [exact S1 | exact S2 | lia].
+  - apply (after_first8 m1 _ d off D k e Ho Hk HD HDr R1 S2 R2).
+Qed.
+
+Ltac conc :=
+  repeat match goal with
+  | |- context [Z.to_nat ?c] => let v := eval vm_compute in (Z.to_nat c) in change (Z.to_nat c) with v
+  | |- context [?a mod ?b] => let v := eval vm_compute in (a mod b) in change (a mod b) with v
+  end; cbn [nth].
+
+Lemma using_offset_lz m d off e :
+  1 <= off ->
+  let m' := using_offset m d (d - off) e off in
+  same_below m m' d /\ lzrec m' off d e.
+Proof.
+  intros Ho. cbv zeta. unfold using_offset.
+  pose proof (wild_iters_cover 8 d e ltac:(lia)) as Hc.
+  assert (Hj : forall j, 0 <= j < 8 -> j = 0 \/ j = 1 \/ j = 2 \/ j = 3 \/ j = 4 \/ j = 5 \/ j = 6 \/ j = 7) by (intros; lia).
+  destruct (off =? 1) eqn:E1.
+  - assert (off = 1) by lia. subst off.
+    destruct (store_rep_lz (wild_iters 8 d e) m d 1
+                [get m (d - 1); get m (d - 1); get m (d - 1); get m (d - 1); get m (d - 1); get m (d - 1); get m (d - 1); get m (d - 1)]) as [S R].
+    + reflexivity.
+    + left; reflexivity.
+    + intros j Hjr. rewrite Z.mod_1_r. replace (d - 1 + 0) with (d - 1) by lia.
+      destruct (Hj j Hjr) as [->|[->|[->|[->|[->|[->|[->| ->]]]]]]]; reflexivity.
+    + split; [exact S|]. eapply lzrec_weaken; [exact R | lia | lia].
+  - destruct (off =? 2) eqn:E2.
+    + assert (off = 2) by lia. subst off.
+      destruct (store_rep_lz (wild_iters 8 d e) m d 2
+                  [get m (d - 2); get m (d - 2 + 1); get m (d - 2); get m (d - 2 + 1); get m (d - 2); get m (d - 2 + 1); get m (d - 2); get m (d - 2 + 1)]) as [S R].
+      * reflexivity.
+      * right; left; reflexivity.
+      * intros j Hjr.
+        destruct (Hj j Hjr) as [->|[->|[->|[->|[->|[->|[->| ->]]]]]]]; conc; f_equal; lia.
+      * split; [exact S|]. eapply lzrec_weaken; [exact R | lia | lia].
+    + destruct (off =? 4) eqn:E4.
+      * assert (off = 4) by lia. subst off.
+        destruct (store_rep_lz (wild_iters 8 d e) m d 4
+                    [get m (d - 4); get m (d - 4 + 1); get m (d - 4 + 2); get m (d - 4 + 3); get m (d - 4); get m (d - 4 + 1); get m (d - 4 + 2); get m (d - 4 + 3)]) as [S R].
+        -- reflexivity.
+        -- right; right; reflexivity.
+        -- intros j Hjr.
+           destruct (Hj j Hjr) as [->|[->|[->|[->|[->|[->|[->| ->]]]]]]]; conc; f_equal; lia.
+        -- split; [exact S|]. eapply lzrec_weaken; [exact R | lia | lia].
+      * destruct (using_offset_base_lz m d off e Ho) as [S R].
+        split; [exact S|]. eapply lzrec_weaken; [exact R | lia | lia].
+Qed.
+
 (* ---------- link with the specification's byte-by-byte copy ---------- *)
 (* [rout] is the output so far, most recent byte first; it sits just below [op] *)
 Definition out_at (f : Z -> Z) (op : Z) (rout : list Z) : Prop :=
